@@ -55,7 +55,8 @@ extern int mpt_path_add(MPT_STRUCT(path) *path, int add)
 		/* set leading/trailing/next size parameter */
 		if (len) {
 			data[len - 1] = add;
-		} else {
+		}
+		if (!path->len) {
 			path->first = add;
 		}
 		/* set next part */
